@@ -21,7 +21,18 @@ enclosing try has ``except Exception`` (Return is an Exception); ContextVar *wri
 (a decorated sub, or a native sub wrapped in a Task by the generator form, gets a context copy, while
 ``await native_sub()`` shares the task's context).
 
-Sensitivity (quick tier, seed 1, one textual mutation at a time on a scratch copy of /repo/tornado): see end of file docstring
+Sensitivity (quick tier, seed 1, one textual mutation at a time on a scratch copy of /repo/tornado/gen.py):
+  * Runner.run: `self.gen.send(None)` instead of `self.gen.throw(exc)` (DESIGN)       -> caught (C37.outcome_differs)
+  * wrapper: exception raised before the first yield swallowed, result None (fast path)-> caught (C37.outcome_differs)
+  * Runner.handle_yield.inner: `self.run()` instead of `self.ctx_run(self.run)` (DESIGN)-> caught (token reset across a
+    yield raises ValueError: different Context)
+  * Runner moment path: `add_callback(self.run)` without ctx_run                        -> caught (same way)
+  * wrapper: `_fake_ctx_run` instead of `copy_context().run`                            -> caught (C37.outcome_differs)
+  * Runner.run: StopIteration/Return value dropped (result None)                        -> caught (C37.outcome_differs)
+  * Runner.run: `Return` no longer recognised after the first yield                     -> caught (C37.outcome_differs)
+  * wrapper: `Return` no longer recognised on the first iteration                       -> caught (C37.outcome_differs)
+  DESIGN's "fast path returning before finally runs" has no small textual equivalent (the generator itself runs the
+  finally); the two fast-path mutants above stand in for it.
 """
 import asyncio
 import contextvars
@@ -36,7 +47,7 @@ from vlib import vtime
 from vlib.loopkit import Logs, norm
 
 PROPERTY = "C37"
-READY = False
+READY = True
 RULE = (
     "Hypothesis generates (program AST, 1-4 schedules); program: <=6 top-level statements, nesting depth <=3, "
     "<=2 subs (native/decorated), <=4 futures; schedule: per-future outcome (result/ErrA/ErrB), already-done "
